@@ -22,6 +22,8 @@ def build(rq):
     if df == 'two_outputs':
         variables['a'] = 'output(2.0)'
     op = OperatorTemplate('op', equations=[eq], variables=variables)
+    if rq.get('form') == 'pop':
+        return build_pop(rq, op)
     ops = [op]
     if df == 'cyclic_ops':
         oa = OperatorTemplate('oa', equations=["m = n + 1.0"], variables={'m': 'output(0.0)', 'n': 'input(0.0)'})
@@ -44,7 +46,26 @@ def build(rq):
     if rq['delay'] == 'mixed':      # a plain discrete delay and a distributed delay in one network
         edges = [('n1/op/x', 'n2/op/u', None, {'weight': 3.0, 'delay': 0.004}),
                  ('n2/op/x', 'n1/op/u', None, {'weight': 1.0, 'delay': 0.004, 'spread': 0.002})]
+    if rq['delay'] == 'mixed2':     # the distributed delay is processed first
+        edges = [('n1/op/x', 'n2/op/u', None, {'weight': 1.0, 'delay': 0.004, 'spread': 0.002}),
+                 ('n2/op/x', 'n1/op/u', None, {'weight': 3.0, 'delay': 0.004})]
     return CircuitTemplate('net', nodes=nodes, edges=edges)
+
+
+def build_pop(rq, op):
+    """The same requests in PopulationTemplate / Connectivity form: two populations of two units."""
+    import numpy as np
+    from pyrates import NodeTemplate, CircuitTemplate
+    from pyrates.frontend.template.population import PopulationTemplate, Connectivity
+    node = NodeTemplate('pn', operators=[op])
+    pops = {'n1': PopulationTemplate('n1', node, 2), 'n2': PopulationTemplate('n2', node, 2)}
+    W = np.array([[3.0, 0.0], [1.0, 2.0]])
+    disc = dict(delays=0.004)
+    gam = dict(delays=0.004, spread=0.002)
+    kinds = {'edge': [disc], 'gamma': [gam], 'mixed': [disc, gam], 'mixed2': [gam, disc]}[rq['delay']]
+    ends = [('n1/op/x', 'n2/op/u'), ('n2/op/x', 'n1/op/u')]
+    conns = [Connectivity(s, t, W, **kw) for (s, t), kw in zip(ends, kinds)]
+    return CircuitTemplate('net', populations=pops, connections=conns)
 
 
 def job(rq):
@@ -128,7 +149,12 @@ def run(ctx):
         ctx.case(key=q['rq'], nontrivial=q['mustRaise'] or q['mustWarn'] or q['rq']['backend'] != 'default')
         k = ('mustRaise' if q['mustRaise'] else 'mustWarn' if q['mustWarn'] else 'free') + ':' + o['outcome']
         tally[k] = tally.get(k, 0) + 1
-        if q['mustRaise'] and o['outcome'] != 'raised':
+        rq = q['rq']
+        d59 = (rq['backend'] == 'jax' and rq['vec'] and rq['delay'] == 'mixed2' and rq.get('form', 'nodes') == 'nodes'
+               and rq['solver'] in ('euler', 'heun') and rq['defect'] == 'none')
+        if q['mustRaise'] and o['outcome'] != 'raised' and d59 and ctx.open_finding('D59'):
+            ctx.known_hit('D59', dict(case=rq, observed=o))
+        elif q['mustRaise'] and o['outcome'] != 'raised':
             ctx.violation(dict(kind='conformance', what='unsupported request returned instead of raising', case=q['rq'], observed=o,
                                expected='raised'))
         elif q['mustWarn'] and o['outcome'] == 'returned' and not o['warned']:
